@@ -269,7 +269,8 @@ def vc_call():
         def call(self, interp, st, a, k, n):
             st.recorded = getattr(st, "recorded", []) + [("call", tuple(a))]
             yield st, None
-    ctx = SymObj("ContextCpu", {"openmp_enabled": False})
+    # a serial context as ContextCpu.__init__ makes it (every attribute the constructor sets that a call may look at)
+    ctx = SymObj("ContextCpu", {"openmp_enabled": False, "omp_num_threads": 0})
     ctx.closed = True
     selfo = SymObj("KernelCpu", {"function": Fn(), "description": desc, "context": ctx,
                                  "to_function_arg": _M(lambda i, s, a, k, n: ("converted", a[0].attrs["name"], a[1]))})
